@@ -13,7 +13,7 @@ ENV = dict(os.environ, GOFLAGS="-mod=mod", GOPROXY="off", GOSUMDB="off", GOTOOLC
 
 
 def sh(cmd, **kw):
-    return subprocess.run(cmd, shell=isinstance(cmd, str), capture_output=True, text=True, env=ENV, **kw)
+    return subprocess.run(cmd, shell=isinstance(cmd, str), capture_output=True, text=True, errors="replace", env=ENV, **kw)
 
 
 def main():
